@@ -430,8 +430,36 @@ func C12(p *Prog, r *Run) {
 				okAN = true
 			}
 		}
-		sets := len(CallsTo(an, p.Func(PkgN, "NNode.setActivation"))) == 1
-		r.Check(okAN && sets, "standard.activate", p.Pos(an.Pos()), "activation = f_type(node.ActivationSum), stored with setActivation", "ActivateNode does not activate from the node's ActivationSum with the node's own activation type")
+		// the computed value becomes the node's Activation: stored directly, or through the setter (which may have been
+		// inlined by hand and deleted)
+		sets := false
+		actF := p.Field(PkgN, "NNode", "Activation")
+		isActResult := func(t *Term) bool {
+			if t.Op != "extract" || t.Idx != 0 || len(t.Args) == 0 {
+				return false
+			}
+			return t.Args[0].Op == "call" && t.Args[0].Obj != nil && t.Args[0].Obj == actByType.Object()
+		}
+		if setter := p.FuncOpt(PkgN, "NNode.setActivation"); setter != nil {
+			ts := NewTermer(setter)
+			setterStores := false
+			for _, st := range FieldStores(setter, actF) {
+				if ts.Of(st.Val).String() == "p1" && ts.Of(st.Addr).String() == "recv.Activation" {
+					setterStores = true
+				}
+			}
+			cs := CallsTo(an, setter)
+			if setterStores && len(cs) == 1 {
+				a := callArgTerms(ta, cs[0].Common())
+				sets = a[0].String() == "p0" && isActResult(a[1])
+			}
+		}
+		for _, st := range FieldStores(an, actF) {
+			if ta.Of(st.Addr).String() == "p0.Activation" && isActResult(ta.Of(st.Val)) {
+				sets = true
+			}
+		}
+		r.Check(okAN && sets, "standard.activate", p.Pos(an.Pos()), "activation = f_type(node.ActivationSum), stored as the node's Activation", "ActivateNode does not activate from the node's ActivationSum with the node's own activation type")
 		// fast sweeps
 		fs := p.Func(PkgN, "FastModularNetworkSolver.forwardStep")
 		tf := NewTermer(fs)
